@@ -84,6 +84,11 @@ pub enum Shot {
 pub enum Op {
     Feed { slot: u8, form: Form, bytes: Vec<u8> },
     Skip { slot: u8, n: u64 },
+    /// Really feed `n` zero bytes through one call of the given update form
+    /// (iterator, per-byte loop, or one slice) -- unlike `Skip`, which uses the
+    /// fast-forward hook.  For per-call state that only misbehaves when a
+    /// single call consumes 2^32 bytes or more (scenario `c03huge`).
+    RealZeros { slot: u8, n: u64, form: Form },
     /// via 0: `dst = src.clone()`; via 1: `dst.clone_from(&src)` into the existing object
     Clone { src: u8, dst: u8, via: u8 },
     Fin { slot: u8 },
@@ -105,6 +110,12 @@ impl Op {
             Op::Skip { slot, n } => {
                 J::obj(vec![("op", J::s("skip_zeros")), ("slot", J::u(*slot as u64)), ("n", J::u(*n))])
             }
+            Op::RealZeros { slot, n, form } => J::obj(vec![
+                ("op", J::s("feed_zeros")),
+                ("slot", J::u(*slot as u64)),
+                ("n", J::u(*n)),
+                ("form", J::s(form.name())),
+            ]),
             Op::Clone { src, dst, via } => J::obj(vec![
                 ("op", J::s("clone")),
                 ("src", J::u(*src as u64)),
@@ -146,6 +157,7 @@ impl Op {
                 bytes: unhex(j.gs("hex")?)?,
             },
             "skip_zeros" => Op::Skip { slot: slot("slot")?, n: j.gu("n")? },
+            "feed_zeros" => Op::RealZeros { slot: slot("slot")?, n: j.gu("n")?, form: Form::from_name(j.gs("form")?)? },
             "clone" => Op::Clone {
                 src: slot("src")?,
                 dst: slot("dst")?,
@@ -202,6 +214,16 @@ impl Op {
                     if p != *n {
                         v.push(Op::Skip { slot: *slot, n: p });
                     }
+                }
+            }
+            Op::RealZeros { slot, n, form } => {
+                // towards the 2^32 border from above, then small
+                if *n > (1u64 << 32) {
+                    v.push(Op::RealZeros { slot: *slot, n: 1u64 << 32, form: *form });
+                }
+                if *n > 0 {
+                    v.push(Op::RealZeros { slot: *slot, n: n - 1, form: *form });
+                    v.push(Op::Skip { slot: *slot, n: *n });
                 }
             }
             Op::Shot { slot, kind } => match kind {
@@ -645,6 +667,7 @@ fn op_name(op: &Op) -> &'static str {
     match op {
         Op::Feed { .. } => "feed",
         Op::Skip { .. } => "skip_zeros",
+        Op::RealZeros { .. } => "feed_zeros",
         Op::Clone { .. } => "clone",
         Op::Fin { .. } => "finalize",
         Op::Shot { .. } => "one_shot",
@@ -723,6 +746,46 @@ fn step(cx: &mut Ctx, slots: &mut [Slot], op: &Op, twin: bool) {
                 }
             }
             cx.ev(true, format_args!("skip s{} {}", slot, n));
+        }
+        Op::RealZeros { slot, n, form } => {
+            let s = &mut slots[*slot as usize];
+            fn feed(g: &mut Generator, n: u64, form: Form) {
+                match form {
+                    Form::Slice | Form::AddSlice | Form::AddArr | Form::Chain if n <= (6u64 << 30) => {
+                        let z = vec![0u8; n as usize];
+                        g.update(&z);
+                    }
+                    Form::Bytewise | Form::AddByte => {
+                        for _ in 0..n {
+                            g.update_by_byte(0);
+                        }
+                    }
+                    _ => {
+                        // one iterator call, exact size hint unknown to the callee beyond `take`
+                        g.update_by_iter(std::iter::repeat(0u8).take(n as usize));
+                    }
+                }
+            }
+            feed(&mut s.g, *n, *form);
+            if twin {
+                feed(&mut s.nodecl, *n, *form);
+                feed(&mut s.fresh, *n, *form);
+            }
+            s.model.push_zeros(*n);
+            cx.probe_n("sim.bytes_really_fed_as_zero_runs", *n);
+            if *n >= (1u64 << 32) {
+                cx.probe("gen.single_call>=2^32");
+            }
+            if *n >= 6 {
+                s.tail = vec![0; 6];
+            } else {
+                s.tail.extend(std::iter::repeat(0u8).take(*n as usize));
+                if s.tail.len() > 6 {
+                    let cut = s.tail.len() - 6;
+                    s.tail.drain(..cut);
+                }
+            }
+            cx.ev(true, format_args!("feed_zeros s{} {} {}", slot, n, form.name()));
         }
         Op::Clone { src, dst, via } => {
             if src != dst {
@@ -1298,6 +1361,31 @@ fn generate_c12_sweep(rng: &mut Rng) -> Vec<Op> {
 }
 
 /// Plain C03 history.
+/// `c03huge` (thorough tier only): one call of one update form consumes 2^32
+/// bytes or more, then trigger words, then finalisation.  A run costs 10-40 s.
+pub fn generate_c03_huge(seed: u64) -> Vec<Op> {
+    let mut rng = Rng::new(seed);
+    let mut ops = Vec::new();
+    let form = *rng.pick(&[Form::Iter, Form::Iter, Form::Bytewise, Form::Slice]);
+    let n = match rng.below(4) {
+        0 => 1u64 << 32,
+        1 => (1u64 << 32) + rng.range(1, 600),
+        2 => (1u64 << 32) - rng.range(1, 600),
+        _ => (1u64 << 32) + (rng.range(1, 4) << 20) + rng.below(64),
+    };
+    if rng.chance(1, 2) {
+        let t = gen_payload(&mut rng, Class::Words);
+        let k = t.bytes.len().min(400);
+        ops.push(Op::Feed { slot: 0, form: Form::Slice, bytes: t.bytes[..k].to_vec() });
+    }
+    ops.push(Op::RealZeros { slot: 0, n, form });
+    let t = gen_payload(&mut rng, Class::Words);
+    let k = t.bytes.len().min(2000);
+    ops.push(Op::Feed { slot: 0, form: *rng.pick(&[Form::Slice, Form::Iter, Form::Bytewise]), bytes: t.bytes[..k].to_vec() });
+    ops.push(Op::Fin { slot: 0 });
+    ops
+}
+
 pub fn generate_c03(seed: u64) -> Vec<Op> {
     let mut rng = Rng::new(seed);
     if rng.chance(1, 6) {
